@@ -1186,6 +1186,30 @@ int EGLPNUM_TYPENAME_ILLlib_addrow (
 	qslp = lp->O;
 	A = &qslp->A;
 
+	/* validate the arguments before anything is changed */
+	if (sense != 'L' && sense != 'G' && sense != 'E' && sense != 'R')
+	{
+		QSlog("illegal sense %c in EGLPNUM_TYPENAME_ILLlib_addrow", sense);
+		rval = 1;
+		ILL_CLEANUP;
+	}
+	for (i = 0; i < cnt; i++)
+	{
+		if (ind[i] < 0 || ind[i] >= qslp->nstruct)
+		{
+			QSlog("EGLPNUM_TYPENAME_ILLlib_addrow called with bad column index: %d",
+									ind[i]);
+			rval = 1;
+			ILL_CLEANUP;
+		}
+	}
+	if (name && ILLsymboltab_contains (&qslp->rowtab, name))
+	{
+		QSlog("EGLPNUM_TYPENAME_ILLlib_addrow: row name \"%s\" already in use", name);
+		rval = 1;
+		ILL_CLEANUP;
+	}
+
 	if (qslp->rA)
 	{															/* After an addrow call, needs to be updated */
 		EGLPNUM_TYPENAME_ILLlp_rows_clear (qslp->rA);
@@ -2164,7 +2188,7 @@ int EGLPNUM_TYPENAME_ILLlib_addcol (
 	int rval = 0;
 	EGLPNUM_TYPENAME_ILLlpdata *qslp;
 	EGLPNUM_TYPENAME_ILLmatrix *A;
-	int ncols;
+	int i, ncols;
 	char buf[ILL_namebufsize];
 	int pind, hit;
 	EGLPNUM_TYPE l, u;
@@ -2181,6 +2205,24 @@ int EGLPNUM_TYPENAME_ILLlib_addcol (
 
 	qslp = lp->O;
 	A = &qslp->A;
+
+	/* validate the arguments before anything is changed */
+	for (i = 0; i < cnt; i++)
+	{
+		if (ind[i] < 0 || ind[i] >= qslp->nrows)
+		{
+			QSlog("EGLPNUM_TYPENAME_ILLlib_addcol called with bad row index: %d",
+									ind[i]);
+			rval = 1;
+			ILL_CLEANUP;
+		}
+	}
+	if (name && ILLsymboltab_contains (&qslp->coltab, name))
+	{
+		QSlog("EGLPNUM_TYPENAME_ILLlib_addcol: column name \"%s\" already in use", name);
+		rval = 1;
+		ILL_CLEANUP;
+	}
 	ncols = qslp->ncols;
 
 	if (qslp->rA)
